@@ -1292,11 +1292,24 @@ Proof.
 Qed.
 End Cub.
 
-(* the same value, written with the float constants A = cA, B = cB, C = cC of the model *)
+(* the same value, written with the float constants A = cA, B = cB, C = cC of the model and with every
+   definition of this file unfolded (so that Props/Glue.v can restate it verbatim) *)
 Lemma approx_log_cub_value (L : libm) (x : f64) : pos_normal x ->
   fin (approx_log L MCub x) /\
   BR (approx_log L MCub x) =
-    rndR (rndR (rndR (rndR (rndR (rndR (BR cA * (BR (sp1_of x) - 1)) + BR cB) * (BR (sp1_of x) - 1)) + BR cC)
-                * (BR (sp1_of x) - 1)) + IZR (x_exp x)) /\
+    round radix2 (FLT_exp (-1074) 53) ZnearestE
+      (round radix2 (FLT_exp (-1074) 53) ZnearestE
+         (round radix2 (FLT_exp (-1074) 53) ZnearestE
+            (round radix2 (FLT_exp (-1074) 53) ZnearestE
+               (round radix2 (FLT_exp (-1074) 53) ZnearestE
+                  (round radix2 (FLT_exp (-1074) 53) ZnearestE
+                     (BR cA * (BR (get_significand_plus_one (bits_of_f64 x)) - 1)) + BR cB)
+                * (BR (get_significand_plus_one (bits_of_f64 x)) - 1)) + BR cC)
+          * (BR (get_significand_plus_one (bits_of_f64 x)) - 1))
+       + IZR (mag radix2 (BR x) - 1)) /\
   (Rabs (BR (approx_log L MCub x)) <= 1026)%R.
-Proof. rewrite cA_BR, cB_BR, cC_BR. exact (approx_log_cub_R L x). Qed.
+Proof.
+  intros Hx. pose proof (approx_log_cub_R L x Hx) as H.
+  unfold Gg, Gd, Gc, Gb, Ga, rndR, sp1_of, x_exp in H.
+  rewrite <- cA_BR, <- cB_BR, <- cC_BR in H. exact H.
+Qed.
